@@ -6,7 +6,8 @@ package phantoms
 // version >= 2, "HKDF" selection) and from the property text; it calls nothing in the package
 // under test and does not use x/crypto/hkdf or crypto/rand.Int either:
 //
-//   group choice : candidates = groups whose subnet list is present, ordered ascending by weight;
+//   group choice : candidates = groups that list at least one subnet (a group without subnets is left
+//                  out, weight included), ordered ascending by weight;
 //                  r = uniform(HKDF-SHA256(seed, salt=nil, info="phantom-select-subnet"), sum(weights));
 //                  walk the candidates subtracting weights until r < 0.
 //   address      : subnets of the chosen group (all groups when unweighted) that pass the family
@@ -267,7 +268,10 @@ func c14RefSelect(groups []c14RefGroup, groupsNil bool, seed []byte, weighted bo
 	var cs []cand
 	tot := int64(0)
 	for i, g := range groups {
-		if g.SubnetsNil {
+		// a group that lists no subnets (absent list or "Subnets = []") takes no part in the choice,
+		// its weight included: that is what every client library version does (clients read the list
+		// from a protobuf, where an empty list is always nil) and what both station paths do
+		if len(g.Subnets) == 0 {
 			continue
 		}
 		cs = append(cs, cand{i, int64(g.Weight)})
